@@ -74,13 +74,14 @@ func NewAccount(name string) *Account {
 
 // Options configure a fresh World.
 type Options struct {
-	Accounts   []*Account                                           // funded genesis accounts
-	Mutate     func(gs map[string]json.RawMessage, cdc codec.Codec) // optional genesis mutation hook
-	DB         dbm.DB                                               // default MemDB
-	Upgrades   int                                                  // if >0: number of entries of app.Upgrades to keep ("old binary")
-	ExtraCoins sdk.Coins                                            // extra per-account coins
-	Home       string                                               // node home (default: one shared scratch home per process)
-	Node       NodeConfig                                           // node-local settings (app.toml): must never influence consensus
+	Accounts      []*Account                                           // funded genesis accounts
+	Mutate        func(gs map[string]json.RawMessage, cdc codec.Codec) // optional genesis mutation hook
+	DB            dbm.DB                                               // default MemDB
+	Upgrades      int                                                  // if >0: number of entries of app.Upgrades to keep ("old binary")
+	ExtraCoins    sdk.Coins                                            // extra per-account coins
+	Home          string                                               // node home (default: one shared scratch home per process)
+	Node          NodeConfig                                           // node-local settings (app.toml): must never influence consensus
+	InitialHeight int64                                                // genesis initial_height (default 1): a chain continuing an exported state starts higher
 }
 
 // NodeConfig is what an operator sets locally in app.toml / on the command line; `panacead start` turns these into
@@ -234,7 +235,11 @@ func New(opts Options) *World {
 	if err != nil {
 		panic(err)
 	}
-	w.initChain(bz, 1, nil)
+	ih := opts.InitialHeight
+	if ih < 1 {
+		ih = 1
+	}
+	w.initChain(bz, ih, nil)
 	return w
 }
 
